@@ -13,6 +13,7 @@ class Facts:
             self.d = json.load(f)
         self.path = path
         self.mir = {k: Body(k, v, self) for k, v in self.d["mir"].items()}
+        self.promoted = {k: Body(k, v, self) for k, v in (self.d.get("promoted") or {}).items()}
         self.thir = self.d["thir"]
         self.items = self.d["items"]
         self.types = self.d["types"]
